@@ -135,6 +135,27 @@ Example tx_same_width_other_name_keeps_old_names :
        [7%float]; [7%float]; [7%float]; [7%float]; [7%float]; [7%float]; [7%float]].
 Proof. vm_compute. reflexivity. Qed.
 
+(* NEW finding, same root as #16: the second call is accepted (`ready` holds), returns True, and the period's Trace
+   still says names = [V0] although every snapshot it appended holds V1 — the last one is V1's stored solution. *)
+Lemma trace_stale_names_refuted :
+  exists (sc : scripts) (cfg : tcfg) (d : mdesc) (o : fopts) (t : Z) (s : fstate) (tr : ftraces) (a : targ) (p : nat),
+    truthy a = true /\ ready float cfg a false t (vals_of s) tr /\ py_pos (length tr) t = Some p /\
+    let R := f_traced_solve_t sc cfg a false d o t s tr in
+    snd R = Ret true /\
+    tr_names (nth p (snd (fst R)) (empty_trace float)) <> names_of cfg (length (vals_of s)) a /\
+    last (tr_values (nth p (snd (fst R)) (empty_trace float))) []
+    = snap float fzero (vals_of (fst (fst R))) t (names_of cfg (length (vals_of s)) a).
+Proof.
+  exists tx_scripts, tx_cfg, tx_desc, (tx_opts 0 5), 1, tx_s1, tx_tr1, (TName 1), 1%nat.
+  split; [reflexivity|]. split.
+  - split.
+    + repeat constructor; eexists; (split; [vm_compute; reflexivity|]); eexists; vm_compute; reflexivity.
+    + exists 1%nat. split; [vm_compute; reflexivity|]. right. vm_compute. reflexivity.
+  - split; [vm_compute; reflexivity|]. cbv zeta. split; [vm_compute; reflexivity|]. split.
+    + vm_compute. discriminate.
+    + vm_compute. reflexivity.
+Qed.
+
 (* ---------------- trace_t's other failure modes surface as the call's exception, before the base class runs *)
 Example tx_unknown_name :
   f_traced_solve_t tx_scripts tx_cfg (TList [0%nat; 5%nat]) false tx_desc (tx_opts 0 5) 1 tx_state tx_tr0
